@@ -12,7 +12,7 @@ KINDS = (1, 0, 5, 30000, 10000)
 
 @obligation(funcs=["storage.db.DBStorage.add_event", "storage.db.DBStorage.pre_save", "storage.db.DBStorage.post_save",
                    "storage.db.DBStorage.process_tags"],
-            timeout=(280, 1200),
+            timeout=(450, 1500),
             bounds="store {e0 (with a tag row)}; e1 of kind from {1,0,5,30000,10000} replacing / deleting / next to e0, with the "
                    "engine failing at the k-th statement (k symbolic 1..6); then e2 is submitted without fault")
 def ob_sql_fault(k1: int, same_author: bool, t1: int, k: int, ref: bool) -> str:
